@@ -553,6 +553,15 @@ func runH2(k *kernel.K, focus string) {
 			}
 			snd.Close()
 			k.Drain()
+			if w.Chance(1, 2) {
+				// the receiver does not know yet that the other side has gone: a keep-alive PING
+				// or two, which the relay cannot deliver any more
+				k.Probe("receiver_pings_after_sender_closed")
+				rcv.Do(&H2Op{Kind: "ping", Ping: [8]byte{0xab, 1}})
+				k.Drain()
+				rcv.Do(&H2Op{Kind: "ping", Ping: [8]byte{0xab, 2}})
+				k.Drain()
+			}
 			if mode == "slow_reader" {
 				rcv.C.Peer().Stall(false)
 			} else {
